@@ -431,3 +431,46 @@ func hC09UnaryCut() {
 		verifAssert(st != "" && st != "0", "C09: a truncated unary response ends with an error status")
 	}
 }
+
+// hC09UnaryReq: request-side faults towards backends without envelopes (Connect unary, REST), where "the body
+// ends" is all a backend sees of a message boundary: an enveloped client's unary request whose payload is
+// undecodable, or corrupt compressed data, or cut short. The client gets a non-OK outcome, and the backend is
+// either not invoked or its read of the request body fails - it never reads a clean end of body, which would be
+// a complete-looking (empty or partial) message the client never sent.
+func hC09UnaryReq() {
+	cfg := &pipeCfg{maxMsg: 64, kind: fkUnary, clientCodec: CodecJSON, svcCodecs: []string{CodecProto}}
+	cfg.client = verifChoose("client", 2) // gRPC, gRPC-Web
+	cfg.svcProtos = []Protocol{[]Protocol{ProtocolConnect, ProtocolREST}[verifChoose("target", 2)]}
+	fault := verifChoose("fault", 3)
+	cfg.clientComp = fault == 1
+	p := newPipe(cfg)
+	if !p.buildOK {
+		return
+	}
+	// a backend that, like a real one, fails the RPC when it cannot read or understand its request
+	wb := &c09Backend{pipeBackend: *p.backend}
+	p.tr.methods[pipePath].handler = wb
+	p.req = buildClientRequest(cfg, nil, p.body)
+	switch fault {
+	case 0: // payload that is not a document of the client's codec
+		p.body.data = appendFrame(nil, 0, nondetBytes("garbage", 2))
+		verifAssume(p.body.data[5] != '{')
+	case 1: // compressed flag, payload is not compressed data
+		p.body.data = appendFrame(nil, 1, []byte{9, 9})
+	default: // envelope announces more than arrives
+		whole := appendFrame(nil, 0, refToyEncode(true, []byte("abc")))
+		p.body.data = whole[:len(whole)-1-verifChoose("missing", 3)]
+	}
+	p.tr.ServeHTTP(p.sink, p.req)
+	out := refParseClientResponse(cfg, p.sink, wb.rec.calls > 0)
+	verifObsInt("calls", int64(wb.rec.calls))
+	verifObsBytes("backend-body", wb.rec.body)
+	verifObsBool("backend-read-failed", wb.rec.readErr != nil)
+	verifObsInt("client-code", int64(out.code))
+	verifReach("faulty-unary-request")
+	verifAssert(out.valid && out.code != 0, "C09: a faulty unary request gets a well-formed non-OK outcome")
+	if wb.rec.calls > 0 {
+		verifReach("backend-invoked")
+		verifAssert(wb.rec.readErr != nil, "C09: a backend without envelopes never reads a clean end of body for a request the client did not send completely or decodably")
+	}
+}
